@@ -19,7 +19,7 @@ def corpus():
             # the runner's user: an interrupted run must still wait for a progress tick that is being reported
             "run prop=C18 mode=constant rate=2/100ms dur=2500 conc=2 body=5 cancel=1100 stallprogress=500",
             "run prop=C18 mode=users conc=2 dur=1400 body=5 stallprogress=300",
-            "run prop=C18 mode=users conc=2 dur=1300 body=5 stallprint=900",                                  # a slow terminal holds the progress line beyond the end of the run
+            "run prop=C18 mode=users conc=2 dur=1300 body=5 stallprint=2500",                                  # a slow terminal holds the progress line beyond the end of the run
             "run prop=C18 mode=constant rate=1/100ms dur=4000 conc=2 block=1 timeout=2300 cancel=300"]      # cancelled early, a blocked iteration keeps Do waiting: no progress tick in between
 
 
